@@ -255,3 +255,46 @@ def unparsable_cell_refused(cell: str) -> bool:
     except _err.SCSVError:
         ok = False
     return ok == (parses or cell.strip() == "-")
+
+
+_COMPLEX = [complex(float("nan"), 0.0), 1.5 + 2j, 0j, complex(float("inf"), -1.0), -2.5j]
+
+
+def complex_cell_roundtrip(cell_sel: int, fill_sel: int, missing: str) -> bool:
+    """
+    pre: 0 <= cell_sel < 5 and 0 <= fill_sel < 5
+    pre: len(missing) <= 2 and "," not in missing
+    pre: str(_COMPLEX[cell_sel]) != missing
+    post: _
+    raises: SCSVError
+    """
+    cell, fill = _COMPLEX[cell_sel], _COMPLEX[fill_sel]
+    w = _written_cell("complex", cell, missing, fill)
+    back = pio._parse_scsv_cell(complex, str(w), missingstr=missing, fillval=fill)
+    if cell != cell:
+        return back != back
+    return back == cell
+
+
+def terse_schema_is_valid(delimiter: str, missing: str, kind_sel: int, fill: str, with_unit: bool) -> bool:
+    """
+    pre: len(delimiter) == 1 and 1 <= len(missing) <= 2 and len(fill) <= 2
+    pre: delimiter not in "dm:()" and "m" not in missing and ":" not in missing and "(" not in missing and ")" not in missing
+    pre: delimiter not in missing and ":" not in fill and "(" not in fill and ")" not in fill
+    pre: 0 <= kind_sel < 5
+    post: _
+    raises: SCSVError
+    """
+    k = "sifbc"[kind_sel]
+    spec = k + ":" + fill + (":percent" if with_unit else "")
+    terse = "d" + delimiter + "m" + missing + ":colA(" + spec + ")colB()"
+    schema = pio.parse_scsv_schema(terse)
+    saved = pio._log
+    pio._log = _Log
+    try:
+        ok = pio._validate_scsv_schema(schema)
+    finally:
+        pio._log = saved
+    f0 = schema["fields"][0]
+    return bool(ok) and schema["delimiter"] == delimiter and schema["missing"] == missing and f0["name"] == "colA" \
+        and f0["fill"] == fill and f0["type"] == pio.SCSV_TERSEMAP[k] and schema["fields"][1] == {"name": "colB", "type": "string", "fill": ""}
